@@ -31,6 +31,15 @@ def run(ctx, res):
     n = ctx.n(900, 12000)
     cases, cr = nnm.run_corr(ctx.pid, ctx.rng, n, maxlen=ctx.n(12, 14))
     res.corr.append(("NonnegMean.test/estim/bet vs NNM.run_test", cr, nnm.case_json))
+    small = nnm.small_exhaustive(maxlen=ctx.n(4, 5))
+    if ctx.quick:
+        small = ctx.rng.sample(small, 1500)
+    else:
+        res.exhaustive = True
+    sm = [{"cfg": cfg, "xs": xs, "impl": nnm.run_impl(cfg, xs), "tag": "small-exhaustive"} for cfg, xs in small]
+    cr2 = C.run_corr(ctx.pid, "nnm_small", nnm.IMPORTS, "nnm_case", sm, nnm.case_lit, "agree_nnm", shard=150, show="show_nnm")
+    res.corr.append(("NonnegMean.test vs NNM.run_test on all samples over {0,u/2,u} up to length 4/5", cr2, nnm.case_json))
+    cases = cases + sm
     res.evaluations += len(cases)
     for c in cases:
         res.oracle_runs += 1
